@@ -287,6 +287,14 @@ below discharge those hypotheses for the contexts the engine really produces:
   between the `save` and the `load`, with or without a recompilation (`hostScript`, the driver's `script` command) of the
   same program before the `load`.
 
+Correspondence with the engine (`harness/engine.cpp`, command `load`: `GetDirector().Reset()`, then the archive is read and
+brings the program back **by name** through the host's file interface): the model folds "Reset forgets the program, the read
+reinstalls it" into "`killAllInsts` keeps `prog`".  Consequence, and a **stated model limitation**: for `save; reset-director;
+load` *without* recompiling, the engine continues like the uninterrupted run (checked engine vs engine at every boundary by
+tools/props/c09.py), while the model's `load` finds no program in the present context and installs none — the second
+equation of `C09_save_reset_load_general` says exactly what the model does there (`prog = []`), it is a fact about the
+model, not about the engine.  The first and third compositions are compared machine vs engine on every run.
+
 `Reset()` in a state with the invariants keeps `prog`/`progParams` (`killAllInsts` only), the three clock fields, the host's
 objects, the output, the host-call records and `nextCall`, and leaves no queued event (`C09_reset_keeps_host_part`). -/
 
